@@ -37,6 +37,16 @@ def prepare(seed, conf, pending="mixed", presteps=10):
         g.a.write_file(0, "BIG", [950] + big[1:], mtime=g.stamp()); g.rec.env("rewrite the first block of 0/BIG")
         g.steps.append("rewrite the first block of 0/BIG")
         return g
+    if pending == "emptydisk":
+        # the disk with the largest allocation loses every file (its blocks reach beyond the allocation of the other disks)
+        big = [g.val() for _ in range(4)]
+        g.a.write_file(conf.nd - 1, "LONG", big, mtime=g.stamp()); g.rec.env("write LONG"); g.steps.append("write %d/LONG" % (conf.nd - 1))
+        g.a.clock += 10
+        g.rec.sync("-E"); g.steps.append("sync -E")
+        for f in g.files(conf.nd - 1):
+            g.a.remove(conf.nd - 1, f)
+        g.rec.env("delete every file of disk %d" % (conf.nd - 1)); g.steps.append("delete every file of disk %d" % (conf.nd - 1))
+        return g
     if pending == "deletes":
         # only deletions are pending (of files that are fully synced)
         k = 0
@@ -110,6 +120,7 @@ def experiment(g, rule, flags=(), lose=None, seed=0, restore=False):
                 rec.env("restore " + " ".join(back)); desc.append("restore (same bytes and stamp) " + " ".join(back))
         c.clock += 10
         r2, out = rec.sync(*flags); desc.append("resume sync -> %s" % out["exit"])
+        resumed = out["exit"] == "ok"          # a refused resume (e.g. parity already cut, files put back) is judged by C14
         r3, out = rec.check(); desc.append("check -> %s" % out["exit"])
         if lose is not None:
             kind, i = lose
@@ -118,7 +129,9 @@ def experiment(g, rule, flags=(), lose=None, seed=0, restore=False):
             else:
                 c.lose_parity(i)
             rec.env("lose %s%d" % (kind, i), damage=True); desc.append("lose %s%d" % (kind, i))
-            r4, out = rec.fix(); rec.lines[-1]["args"]["expect_c01"] = True; desc.append("fix -> %s" % out["exit"])
+            r4, out = rec.fix(); desc.append("fix -> %s" % out["exit"])
+            if resumed:
+                rec.lines[-1]["args"]["expect_c01"] = True
             r5, out = rec.check(); desc.append("check -> %s" % out["exit"])
         return rec, desc
     finally:
@@ -164,6 +177,45 @@ def fix_experiment(g, damage, rule, seed=0):
             elif k[d][n][2] != t[d][n][2]:
                 diffs.append((d, n, "mtime"))
     res["diffs"] = diffs
+    return res
+
+
+def fix_sigint_experiment(g, seed=0):
+    """fix interrupted gracefully (SIGINT) after a write into one of the files it repairs, with only SOME files of a disk lost
+    (the others stay intact next to the re-created ones); fix again; compared with an uninterrupted fix on a twin"""
+    import random
+    rng = random.Random(seed)
+    st = g.rec.lines[-1]["state"]
+    lost = []
+    for d in g.rec.D:
+        names = sorted(n for n in st["cf"][d] if n in st["fs"][d] and st["cf"][d][n]["bl"])
+        if len(names) >= 2:
+            lost.append((int(d), names[0]))            # the first file of the disk (scan order) is lost, later ones stay
+    if not lost:
+        return None
+    lost = lost[:max(1, len(st["par"]))]
+    finals, res = [], {}
+    for variant in ("interrupted", "twin"):
+        c = g.a.clone()
+        try:
+            rec = recorder.Recorder(c, obs=g.rec.obs.clone_for(c))
+            rec.vlen.update(g.rec.vlen); rec.names |= g.rec.names
+            desc = ["fix experiment %s" % variant]
+            for d, n in lost:
+                c.remove(d, n)
+            rec.env("lose " + " ".join("%d/%s" % x for x in lost), damage=True); desc.append("lose " + " ".join("%d/%s" % x for x in lost))
+            if variant == "interrupted":
+                k = rng.randint(1, 3)
+                r = rec.fix_killed(["pwrite,/d,%d,sigint" % k]); desc.append("fix stopped by SIGINT after data write %d rc=%s" % (k, r.rc))
+            r, out = rec.fix(); desc.append("fix -> %s" % out["exit"])
+            final = {d: {n: (tuple(f["b"]), f["sz"]) for n, f in rec.lines[-1]["state"]["fs"][d].items()} for d in rec.D}
+            r, out = rec.check(); desc.append("check -> %s" % out["exit"])
+            finals.append(final)
+            if variant == "interrupted":
+                res = {"rec": rec, "desc": desc}
+        finally:
+            c.destroy()
+    res["diffs"] = [(d, n) for d in finals[1] for n in set(finals[0][d]) | set(finals[1][d]) if finals[0][d].get(n) != finals[1][d].get(n)]
     return res
 
 
